@@ -45,6 +45,10 @@ type Client struct {
 	MaxFrameSeen int
 	// FrameSizes optionally fixes the plaintext sizes of outgoing frames.
 	FrameSizes []int
+	// SplitAt > 0 sends every request in two TCP writes, cut SplitAt bytes before its end (clamped into
+	// the request), with SplitPause between them: a peer on a slow link or with a small MSS.
+	SplitAt    int
+	SplitPause time.Duration
 }
 
 // Dial connects to an accessory.
@@ -90,13 +94,27 @@ func BuildRequest(method, path, contentType string, body []byte) []byte {
 // SendRaw writes bytes as they are (plaintext path) or sealed (secure path).
 func (c *Client) SendRaw(p []byte) error {
 	c.Conn.SetWriteDeadline(time.Now().Add(c.Timeout))
-	if c.sealer == nil {
-		_, err := c.Conn.Write(p)
-		return err
+	out := p
+	if c.sealer != nil {
+		out = nil
+		for _, f := range c.sealer.SealMessage(p, c.FrameSizes) {
+			out = append(out, f...)
+		}
 	}
-	var out []byte
-	for _, f := range c.sealer.SealMessage(p, c.FrameSizes) {
-		out = append(out, f...)
+	if c.SplitAt > 0 && len(out) > 1 {
+		k := len(out) - c.SplitAt
+		if k < 1 {
+			k = 1
+		}
+		if k >= len(out) {
+			k = len(out) - 1
+		}
+		if _, err := c.Conn.Write(out[:k]); err != nil {
+			return err
+		}
+		time.Sleep(c.SplitPause)
+		_, err := c.Conn.Write(out[k:])
+		return err
 	}
 	_, err := c.Conn.Write(out)
 	return err
@@ -285,13 +303,19 @@ func (c *Client) ReadResponse() (*Response, error) {
 			return r, nil
 		}
 		if used == -1 {
-			// read until close
+			// no length given: the body extends to the end of the connection
 			if ferr := c.fill(deadline); ferr != nil {
 				if ferr == ErrClosed {
 					he := bytes.Index(c.plain, []byte("\r\n\r\n"))
-					rr, _, _ := parseOne(append(append([]byte{}, c.plain[:he+4]...), []byte{}...))
-					_ = rr
-					return nil, ErrClosed
+					head := append(append([]byte{}, c.plain[:he]...), []byte("\r\nContent-Length: 0\r\n\r\n")...)
+					rr, _, perr := parseOne(head)
+					if perr != nil || rr == nil {
+						return nil, ErrClosed
+					}
+					rr.Body = append([]byte{}, c.plain[he+4:]...)
+					rr.Header["connection"] = "close"
+					c.plain = nil
+					return rr, nil
 				}
 				return nil, ferr
 			}
